@@ -126,7 +126,7 @@ func (p c07) Run(c *core.Ctx) {
 		c.Feature("prepopulated-store")
 	}
 	mk := func() *Pair {
-		pair, err, pan := NewPair(prog, scripts, PairOpts{UseDefaultStore: r.Chance(1, 2), Pre: pre}, nil)
+		pair, err, pan := NewPair(prog, scripts, PairOpts{UseDefaultStore: r.Chance(1, 2), Pre: pre}, r.Fork())
 		if err != nil || pan != "" {
 			c.Violate("a generated, syntactically valid program failed to load", map[string]any{"readers": scripts, "error": fmt.Sprint(err), "panic": pan})
 			return nil
